@@ -168,3 +168,58 @@ Proof.
   unfold uc_latent_def. apply qleq_map_seq. intros q Hq. apply Qmult_comp; [reflexivity|]. rewrite !sumf_sumg. apply sumg_ext. intros x Hx.
   pose proof (Hlen x Hx) as E. rewrite <- E. rewrite uc_mean_uniform; [reflexivity|]. intro Z. rewrite Z in E. cbn in E. lia.
 Qed.
+
+(** * cross maps and OHV tables for any number of parents *)
+Lemma xmap_from_spec unique n k : forall lo l,
+  In l (xmap_from unique n k lo) <-> (length l = k /\ chain unique lo l /\ Forall (fun i => (i < n)%nat) l).
+Proof.
+  induction k as [|k IH]; intros lo l; cbn [xmap_from].
+  - split.
+    + intros [E|[]]. subst l. repeat split; constructor.
+    + intros (HL & _ & _). destruct l; [now left | discriminate].
+  - rewrite in_flat_map. split.
+    + intros (i & Hi & Hin). apply in_map_iff in Hin as (r & E & Hr). subst l. apply in_seq in Hi. apply IH in Hr as (HL & HC & HF).
+      cbn [length chain]. repeat split; [now rewrite HL | lia | exact HC | constructor; [lia | exact HF]].
+    + intros (HL & HC & HF). destruct l as [|i r]; [discriminate|]. cbn [length chain] in HL, HC. destruct HC as [Hlo HC]. inversion HF; subst.
+      exists i. split; [apply in_seq; lia|]. apply in_map_iff. exists r. split; [reflexivity|]. apply IH. repeat split; [lia | exact HC | assumption].
+Qed.
+(** the cross map of k parents lists exactly the index tuples of length k below n that increase strictly (unique parents) /
+    do not decrease *)
+Lemma xmap_def_spec unique n k l : In l (xmap_def unique n k) <-> (length l = k /\ chain unique 0 l /\ Forall (fun i => (i < n)%nat) l).
+Proof. apply xmap_from_spec. Qed.
+
+Lemma flat_map_singletons i (l : list nat) : map (cons i) (flat_map (fun j => map (cons j) [[]]) l) = map (fun j => [i; j]) l.
+Proof. induction l as [|j l IH]; cbn; [reflexivity | now rewrite <- IH]. Qed.
+Lemma flat_map_ext' {A B} (f g : A -> list B) l : (forall a, f a = g a) -> flat_map f l = flat_map g l.
+Proof. intros H. induction l as [|a l IH]; cbn; [reflexivity | now rewrite H, IH]. Qed.
+(** for two parents it is the pair map of the two-parent model *)
+Lemma xmap_def_two n : xmap_def true n 2 = pairs_unique n /\ xmap_def false n 2 = pairs_any n.
+Proof.
+  unfold xmap_def, pairs_unique, pairs_any. cbn [xmap_from]. rewrite Nat.sub_0_r.
+  split; apply flat_map_ext'; intros i; apply flat_map_singletons.
+Qed.
+Lemma ohvmat_defk_two hap u bounds n t unique : ohvmat_defk hap u bounds n t 2 unique = ohvmat_def hap u bounds n t unique.
+Proof.
+  unfold ohvmat_defk, ohvmat_on, ohvmat_def. destruct (xmap_def_two n) as [E1 E2]. destruct unique; [now rewrite E1 | now rewrite E2].
+Qed.
+
+(** every parent of the cross counts: an entry of the OHV row is at least ploidy * (sum over blocks of the block value) of
+    ANY single phase of ANY parent in the list, and it is attained blockwise by some (phase, parent) of the list *)
+Lemma qsum_le_pointwise {A} (f g : A -> Q) l : (forall a, In a l -> f a <= g a) -> qsum (map f l) <= qsum (map g l).
+Proof.
+  induction l as [|a l IH]; intros H; [apply Qle_refl|]. cbn [map]. rewrite !qsum_cons.
+  apply Qplus_le_compat; [apply H; now left | apply IH; intros; apply H; now right].
+Qed.
+Lemma ohv_row_dominates H nb nt parents Hp i q : In Hp H -> In i parents -> (q < nt)%nat ->
+  nq (length H) * sumf (fun b => hget Hp i b q) (seq 0 nb) <= nth q (ohv_row H nb nt parents) 0.
+Proof.
+  intros HH Hi Hq. unfold ohv_row.
+  rewrite (nth_map_seq_list (fun q => nq (length H) * sumf (fun b => maxl (flat_map (fun Hp => map (fun i => hget Hp i b q) parents) H)) (seq 0 nb)) 0 nt q Hq).
+  rewrite !(Qmult_comm (nq (length H))).
+  apply Qmult_le_compat_r; [|unfold nq; change 0 with (inject_Z 0); rewrite <- Zle_Qle; lia].
+  unfold sumf. apply qsum_le_pointwise. intros b _.
+  set (L := flat_map (fun Hp => map (fun i => hget Hp i b q) parents) H).
+  assert (IN : In (hget Hp i b q) L) by (apply in_flat_map; exists Hp; split; [exact HH | apply in_map_iff; exists i; now split]).
+  assert (NE : L <> []) by (intros E; rewrite E in IN; exact IN).
+  pose proof (proj1 (maxl_lub L (maxl L) NE) (Qle_refl _)) as F. rewrite Forall_forall in F. now apply F.
+Qed.
